@@ -216,6 +216,20 @@ except Exception as e:
     logger.warning("Failed to replace major decoder for indefinite array", e)
 
 
+def loads(payload: bytes) -> Any:
+    """Decode CBOR bytes with the decoder the two patches above apply to.
+
+    Both patches reach the pure-Python decoder of cbor2 only. When the C extension of cbor2 is installed,
+    ``cbor2.loads`` bypasses them: a set tagged with 258 arrives as an unordered Python set and an
+    indefinite-length list as a plain list. Decoding therefore always goes through the pure-Python decoder,
+    which is made to build the same value classes (``CBORTag`` etc.) that ``cbor2`` exports.
+    """
+    for name in ("CBORTag", "CBORSimpleValue", "FrozenDict", "undefined"):
+        if getattr(cbor2._decoder, name, None) is not getattr(cbor2, name):
+            setattr(cbor2._decoder, name, getattr(cbor2, name))
+    return cbor2._decoder.loads(payload)
+
+
 def default_encoder(
     encoder: CBOREncoder, value: Union[CBORSerializable, IndefiniteList]
 ):
@@ -540,7 +554,7 @@ class CBORSerializable:
 
         assert isinstance(payload, bytes)
 
-        value = cbor2.loads(payload)
+        value = loads(payload)
 
         return cls.from_primitive(value)
 
